@@ -110,7 +110,34 @@ def c_op(op):
         return f"OExpand {cstr(op[1])}"
     if k == "reset":
         return "OReset"
+    if k in ("parse1", "parseN"):
+        return "OParse " + clist(ctuple(cstr(p_), cstr(n_)) for p_, n_ in parse_decls(op))
     raise ValueError(k)
+
+
+def parse_decls(op):
+    """the prefix directives of the document, in document order"""
+    return [[op[1], op[2]]] if op[0] == "parse1" else [list(d) for d in op[1]]
+
+
+def turtle_doc(op, i=0):
+    """a Turtle document with these directives (alternating @prefix / PREFIX) and one triple"""
+    lines = []
+    for j, (p_, n_) in enumerate(parse_decls(op)):
+        lines.append("@prefix %s: <%s> ." % (p_, n_) if (i + j) % 2 == 0 else "PREFIX %s: <%s>" % (p_, n_))
+    return "\n".join(lines) + "\n<h:s> <h:p> <h:o> .\n"
+
+
+def gen_decls(rng, pfx, nss):
+    """1-3 directives: re-declaration of a prefix, two prefixes for one namespace, the empty prefix"""
+    ps = [p for p in pfx if p is not None] or ["a"]
+    n = rng.choice([1, 2, 2, 3])
+    decls = [[rng.choice(ps), rng.choice(nss)] for _ in range(n)]
+    if n > 1 and rng.random() < 0.3:
+        decls[-1][0] = decls[0][0]  # the prefix declared again
+    if n > 1 and rng.random() < 0.3:
+        decls[-1][1] = decls[0][1]  # a second prefix for the same namespace
+    return decls
 
 
 # ------------------------------------------------------------------ observing rdflib
@@ -400,6 +427,23 @@ DOCS = {
     "g1": ("trig", "@prefix a: <h:e#> . a:g { a:x a:y a:z . }"),
     "j1": ("json-ld", '{"@context": {"b": "h:e/a#", "c": "u:x:"}, "@id": "h:e/s", "b:p": {"@id": "c:o"}}'),
 }
+# the prefix directives of the Turtle-family documents above, in document order
+DOC_DECLS = {
+    "t1": [["a", "h:e/"], ["b", "h:e/a#"]], "t2": [["a", "h:e/a#"], ["", "h:e/"]], "t3": [["ns1", "u:x:"]],
+    "t4": [["rdf", "h:e/"], ["owl", "h:e/a/"]], "t5": [["a", "h:e/a/b/"], ["a1", "h:e/a/"]],
+    "n1": [["", "u:x:y:"], ["b", "h:e/"]], "g1": [["a", "h:e#"]],
+}
+
+
+def conf_op(op):
+    """Coq operation of a conformance step: Turtle-family parses are the modelled OParse"""
+    if op[0] == "parse" and op[1] in DOC_DECLS:
+        return c_op(["parseN", DOC_DECLS[op[1]]])
+    if op[0] in ("parse", "ser", "add"):
+        return "OOther"
+    return c_op(op)
+
+
 CONF_IRIS = ["h:e/x", "h:e/a#y", "h:e/a/b/x", "h:e/ab", "u:x:y:z", "u:x:a", "h:e#x", "h:e/a/y", "h:e/s",
              "http://www.w3.org/1999/02/22-rdf-syntax-ns#type", "http://www.w3.org/2002/07/owl#Class",
              "http://www.w3.org/2001/XMLSchema#integer", "http://xmlns.com/foaf/0.1/name", "h:e/a/1", "h:e/_u"]
@@ -497,12 +541,7 @@ class C17Conf(Suite):
         return [{"res": ["s", "!!timeout"], "list": [], "rev": [], "api": False}]
 
     def coq_case(self, case):
-        ops = []
-        for op in self.expanded_ops(case):
-            if op[0] in ("parse", "ser", "add"):
-                ops.append("OOther")
-            else:
-                ops.append(c_op(op))
+        ops = [conf_op(op) for op in self.expanded_ops(case)]
         flat = [op for op in self.expanded_ops(case) if op[0] not in ("parse", "ser", "add")]
         cats = clist(ctuple(cN(c), cN(k)) for c, k in cat_table({"ops": flat}))
         return "{| c_cats := " + cats + "; c_ops := " + clist(ops) + "; c_tag := 0%N |}"
@@ -615,7 +654,7 @@ class C17Dataset(Suite):
                 fl = rng.choice([(True, False), (True, False), (False, False), (False, True), (True, True)])
                 ops.append(["bind", rng.choice(pfx), rng.choice(nss), fl[0], fl[1], True])
             elif r < 0.52:
-                ops.append(["parse1", rng.choice([p for p in pfx if p] or ["a"]), rng.choice(nss)])
+                ops.append(["parseN", gen_decls(rng, pfx, nss)])
                 v = rng.randrange(1, len(objs) + 1)  # through the dataset object parse goes to default_context
             elif r < 0.75:
                 ops.append(["qname", u, rng.random() < 0.5])
@@ -634,7 +673,7 @@ class C17Dataset(Suite):
         out = []
         nobj = len(case["objs"]) + 1
         for op in case["ops"]:
-            out.append(["bind", op[1], op[2], True, False, True] if op[0] == "parse1" else op)
+            out.append(op)
             for _ in range(nobj):
                 out.extend(["compute", u, False] for u in case["iris"])
         return out
@@ -646,9 +685,9 @@ class C17Dataset(Suite):
         obs = []
         for op, v in zip(case["ops"], case["via"]):
             o = objs.get(v)
-            if op[0] == "parse1":
+            if op[0] in ("parse1", "parseN"):
                 try:
-                    o.parse(data="@prefix %s: <%s> . <h:s> <h:p> %s:o ." % (op[1], op[2], op[1]), format="turtle")
+                    o.parse(data=turtle_doc(op, len(obs)), format="turtle")
                     res = ["unit"]
                 except Exception as e:  # noqa: BLE001
                     res = ["exn", type(e).__name__]
@@ -675,7 +714,7 @@ class C17Dataset(Suite):
 
     def nontrivial(self, case, obs):
         # a binding change through one object and a question through another
-        b = {v for o, v in zip(case["ops"], case["via"]) if o[0] in ("bind", "parse1")}
+        b = {v for o, v in zip(case["ops"], case["via"]) if o[0] in ("bind", "parse1", "parseN")}
         return bool(b) and (len(b) > 1 or len(case["objs"]) >= 1)
 
     def features(self, case, obs):
@@ -807,7 +846,7 @@ class C17DsConf(C17Conf):
         return obs
 
     def coq_case(self, case):
-        ops = ["OOther" if op[0] in ("parse", "ser", "add") else c_op(op) for op in self.expanded_ops(case)]
+        ops = [conf_op(op) for op in self.expanded_ops(case)]
         flat = [op for op in self.expanded_ops(case) if op[0] not in ("parse", "ser", "add")]
         cats = clist(ctuple(cN(c), cN(k)) for c, k in cat_table({"ops": flat}))
         return "{| c_cats := " + cats + "; c_ops := " + clist(ops) + "; c_tag := " + cN(self.tag(case)) + " |}"
@@ -883,7 +922,7 @@ class C17World(Suite):
                 fl = rng.choice([(True, False), (True, False), (False, False), (False, True), (True, True)])
                 ops.append(["bind", rng.choice(pfx), rng.choice(nss), fl[0], fl[1], True])
             elif r < 0.50:
-                ops.append(["parse1", rng.choice([p for p in pfx if p] or ["a"]), rng.choice(nss)])
+                ops.append(["parseN", gen_decls(rng, pfx, nss)])
             elif r < 0.80:
                 ops.append(["qname", u, rng.random() < 0.5])
             elif r < 0.86:
@@ -895,8 +934,8 @@ class C17World(Suite):
             else:
                 ops.append(["reset"])
             via.append(v)
-        return {"root": root, "defaults": rng.choice(["none", "none", "core"]), "objs": objs, "iris": iris,
-                "ops": ops, "via": via}
+        return {"root": root, "defaults": rng.choice(["none", "none", "none", "core", "core", "rdflib"]), "objs": objs,
+                "iris": iris, "ops": ops, "via": via}
 
     # ---- the flattened history: (kind, manager number or stock name, op)
     def plan(self, case):
@@ -935,7 +974,7 @@ class C17World(Suite):
                     create(v)
                 continue
             target = v
-            if op[0] == "parse1" and v == 0:
+            if op[0] in ("parse1", "parseN") and v == 0:
                 # Dataset.parse / ConjunctiveGraph.parse hand the document to self.default_context
                 if dc_obj is None:
                     kinds.append("dc")
@@ -945,8 +984,7 @@ class C17World(Suite):
                 target = dc_obj
             elif v not in mgr_of:
                 create(v)
-            o = ["bind", op[1], op[2], True, False, True] if op[0] == "parse1" else op
-            steps.append(("op", mgr_of[target], v, o, op))
+            steps.append(("op", mgr_of[target], v, op, op))
             probes()
         return steps
 
@@ -982,10 +1020,9 @@ class C17World(Suite):
                 res = do_op(ob(st[2]), ["compute", st[3], False])
             else:
                 o, orig = st[3], st[4]
-                if orig[0] == "parse1":
+                if orig[0] in ("parse1", "parseN"):
                     try:
-                        ob(st[2]).parse(data="@prefix %s: <%s> . <h:s> <h:p> %s:o ." % (orig[1], orig[2], orig[1]),
-                                        format="turtle")
+                        ob(st[2]).parse(data=turtle_doc(orig, len(obs)), format="turtle")
                         res = ["unit"]
                     except Exception as e:  # noqa: BLE001
                         res = ["exn", type(e).__name__]
@@ -1019,7 +1056,7 @@ class C17World(Suite):
 
     def nontrivial(self, case, obs):
         steps = self.plan(case)
-        return len({st[1] for st in steps if st[0] == "op" and st[3][0] == "bind"}) >= 1 and \
+        return len({st[1] for st in steps if st[0] == "op" and st[3][0] in ("bind", "parse1", "parseN")}) >= 1 and \
             sum(1 for st in steps if st[0] == "new") >= 2
 
     def features(self, case, obs):
@@ -1032,7 +1069,10 @@ class C17World(Suite):
             if st[0] == "op":
                 k = "op_" + st[4][0] + ("_root_mgr" if st[1] == 0 else "_other_mgr")
                 f[k] = f.get(k, 0) + 1
-        f["parse_through_dataset"] = int(any(o[0] == "parse1" and v == 0 for o, v in zip(case["ops"], case["via"])))
+        f["parse_through_dataset"] = int(any(o[0] in ("parse1", "parseN") and v == 0 for o, v in zip(case["ops"], case["via"])))
+        f["parse_directives"] = sum(len(parse_decls(o)) for o in case["ops"] if o[0] in ("parse1", "parseN"))
+        f["parse_redeclares"] = sum(1 for o in case["ops"] if o[0] == "parseN"
+                                    and len({d[0] for d in o[1]}) < len(o[1]))
         return f
 
     def shrink(self, case):
@@ -1236,10 +1276,12 @@ ASSUMPTIONS = [
     "ConjunctiveGraph.default_context and a user's second Graph have their own; a manager comes into being at the first "
     "touch of .namespace_manager, which the harness makes an explicit step",
     "the serialiser's p-prefix loop is bounded by |table|+1 iterations (the two numbered-prefix loops are proved to end)",
+    "a Turtle/N3/TriG parse is, for the bindings, the loop `for prefix, namespace in p._bindings.items(): graph.bind(prefix, "
+    "namespace)` (model OParse); relative namespace IRIs in directives (joined with the base) are not generated",
     "the serialiser's preprocess sees the triples in the order Graph.triples((None, None, None)) yields them (read from the "
     "graph when the case is generated; PYTHONHASHSEED=0); the statements of the body are not modelled, only the names they use are checked",
 ]
-RULE = ("nsworld: 3-7 operations routed through 2-3 managers over one store (dataset, default_context, second Graph), every IRI asked through every manager after each step; nsserial: 1-4 bindings (prefixes _g p_g pp_g ns1 pns1 '' ...) and 1-4 triples over 6 nested namespaces; nsdataset: 2-6 operations routed through a Dataset/ConjunctiveGraph and 1-2 named graphs of it, every IRI asked "
+RULE = ("parses in nsdataset/nsworld: Turtle documents with 1-3 @prefix/PREFIX directives (a prefix declared again, two prefixes for one namespace, the empty prefix) through any object; nsworld: 3-7 operations routed through 2-3 managers over one store (dataset, default_context, second Graph), every IRI asked through every manager after each step; nsserial: 1-4 bindings (prefixes _g p_g pp_g ns1 pns1 '' ...) and 1-4 triples over 6 nested namespaces; nsdataset: 2-6 operations routed through a Dataset/ConjunctiveGraph and 1-2 named graphs of it, every IRI asked "
         "through every object after each step; nsmanager: histories of 2-12 operations over 2-5 namespaces drawn from a nested/overlapping family and 2-5 prefixes "
         "(empty, None, generated-looking, '_'-prefixed); distinct by full case content; non-trivial = contains a bind "
         "and a qname-like call")
